@@ -23,10 +23,12 @@
     `result[i]` = `setE`.
   * `safe_map_indexed_values`: `map_filter[i]`, `map_field[i]` = the matches of `smivLenStep` / `smivStep`;
     `data_indices[map_field[i]]`, `data_indices[map_field[i] + 1]` = `getI`; `data_values[sst:sse]` = `pySlice` (a
-    slice clamps, it never raises). `i_result[0]`, `i_result[i + 1]`, `v_result[dst:dse]`: the kernel allocates
-    `i_result` with `len(map_field) + 1` and `v_result` with the total computed by its own first pass and writes them
-    at `i + 1 ≤ len(map_field)` resp. at the running fill position, so they are in range by construction; the model
-    appends (no capacity check) — these three sites are covered by the bounds-checked differential runs only.
+    slice clamps, it never raises). `i_result[0]`: `i_result` has `len(map_field) + 1 ≥ 1` slots (the initial `[0]` of `safeMapIndexedValues`);
+    `i_result[i + 1]` = the capacity check `capI ≤ i + 1` of `smivStep`, `v_result[dst:dse] = …` = its check
+    `capV < offset + delta` (the slice must end inside `v_result`: stricter than numpy's clamping), with `capI`, `capV` the
+    sizes the kernel allocates between its passes (`len(map_field) + 1`, the `value_length` computed by `smivLenStep`);
+    both discharged in `safeMapIndexedValues_spec` (the fill position is a prefix sum of the first pass's total) and, for
+    ALL arguments, bounded by `Props.C10.safe_map_indexed_step_bounded`.
   * `chunks` has no subscript (modelled as `JoinOld.nextRange`; listed with the legacy join helpers).
 -/
 namespace Exetera.KernelSites
